@@ -506,14 +506,35 @@ Section EngineCrashAmend.
 End EngineCrashAmend.
 
 (* full statement for the dispatch rule of the code, not proved: needs that a gated build from a
-   crash state is finished whenever the gated build that was not killed is *)
+   crash state is finished whenever the gated build that was not killed is (a decision-by-decision
+   simulation of the two builds).  Stated over [crash_state_ad]: the torn step was really dispatched
+   (run, deferral or failure); over [crash_state_a] (any PENDING step torn) it is FALSE: *)
 Definition C05_full_amend_gated : Prop :=
   forall run amend fails (proj : Engine.project), Engine.wf_a amend proj ->
   forall (y c : Engine.asys),
     EngineAmendFull.InvA run amend fails proj y -> (forall q, In q proj -> Engine.afail y (Engine.sid q) = false) ->
-    CrashEngine.crash_state_a run amend fails true proj y c ->
+    CrashEngine.crash_state_ad run amend fails true proj y c ->
     Engine.same_result_a proj (CrashEngine.restart_a run amend fails true proj c)
                          (Engine.a_build run amend fails true proj y).
+
+Theorem C05_full_amend_gated_needs_dispatch_refuted :
+  let y := Engine.resync_a EngineAmendProofs.p28 (EngineAmendProofs.bw28 true EngineAmendProofs.w28a Engine.empty_asys)
+                           EngineAmendProofs.w28b in
+  let z := CrashEngine.a_build_prefix Engine.mix_run (Engine.amend_tab EngineAmendProofs.tab28) Engine.no_fail true
+                                      EngineAmendProofs.p28 1 y in
+  exists s, nth_error EngineAmendProofs.p28 1 = Some s /\ Engine.stt (Engine.abase z) (Engine.sid s) = Engine.Pending /\
+    CrashEngine.dispatched (Engine.amend_tab EngineAmendProofs.tab28) Engine.no_fail true EngineAmendProofs.p28 s z = false /\
+    CrashEngine.same_result_a_b EngineAmendProofs.p28
+      (CrashEngine.restart_a Engine.mix_run (Engine.amend_tab EngineAmendProofs.tab28) Engine.no_fail true EngineAmendProofs.p28
+         (CrashEngine.torn_a s z (fun _ => None) []))
+      (Engine.a_build Engine.mix_run (Engine.amend_tab EngineAmendProofs.tab28) Engine.no_fail true EngineAmendProofs.p28 y) = false /\
+    forallb (fun k => CrashEngine.same_result_a_b EngineAmendProofs.p28
+               (CrashEngine.restart_a Engine.mix_run (Engine.amend_tab EngineAmendProofs.tab28) Engine.no_fail true EngineAmendProofs.p28
+                  (CrashEngine.a_build_prefix Engine.mix_run (Engine.amend_tab EngineAmendProofs.tab28) Engine.no_fail true
+                     EngineAmendProofs.p28 k y))
+               (Engine.a_build Engine.mix_run (Engine.amend_tab EngineAmendProofs.tab28) Engine.no_fail true EngineAmendProofs.p28 y))
+            (seq 0 4) = true.
+Proof. exact CrashEngineAmend.gated_needs_dispatch_refuted. Qed.
 
 (* the hypotheses are satisfiable, and on this instance the gated statement holds at every point:
    an amending script step that can fail, all four steps rerun, killed at every point between
